@@ -392,3 +392,78 @@ class get_chunks:
         for n in range(0, 30):
             for c in range(1, 12):
                 yield {"n": n, "chunksize": c}
+
+
+# ---------------------------------------------------------------------------
+# Rechunk pushed through a transpose (C14): the inner rechunk gets the target chunks permuted back, and the planner
+# arguments travel with it
+# ---------------------------------------------------------------------------
+def _ext_arr_rechunk(ex, st, args, kwargs, node):
+    """arr.rechunk(chunks, threshold=, block_size_limit=, method=): a node with those chunks (Rechunk.chunks, proved for
+    explicit layouts by normalize_chunks[explicit]) that remembers the planner arguments it was given"""
+    o = ex.fresh_value("obj:Arr", "rechunked")
+    o.fields["chunks"] = args[1]
+    o.fields["__rechunk_of__"] = args[0]
+    o.fields["__planner__"] = dict(kwargs)
+    return o
+
+
+def _ext_arr_rechunk_kw(ex, st, args, kwargs, node):
+    return _ext_arr_rechunk(ex, st, args, kwargs, node)
+
+
+def _ext_transpose(ex, st, args, kwargs, node):
+    """Transpose(array, axes): a record of its operands"""
+    o = ex.fresh_value("obj:Transpose", "moved")
+    o.fields["array"] = args[0]
+    o.fields["axes"] = args[1]
+    return o
+
+
+def _pushdown_T(axes):
+    rank = len(axes)
+    tys = ",".join(["seq"] * rank)
+
+    @contract(f"{RC}::Rechunk._pushdown_through_transpose", spec="axes" + "".join(map(str, axes)), props=["C14", "C02"])
+    class pushdown_transpose:
+        """Rechunk(Transpose(y, axes), target) -> Transpose(y.rechunk(inner), axes) with inner[axes[i]] == target[i] for
+        every output axis i -- so that the transpose of the inner rechunk has exactly the requested chunks --, over the same
+        y and the same axes"""
+        params = {"self": "obj:Rechunk"}
+        result = "obj:Transpose"
+        fields = {"Rechunk": {"array": "obj:Transpose", "chunks": "tup:" + tys, "threshold": "abs:Any", "block_size_limit": "abs:Any",
+                              "method": "abs:Any"},
+                  "Transpose": {"array": "obj:Arr", "axes": "const"}, "Arr": {}}
+        consts = {"self.array.axes": tuple(axes)}
+        externals = {"Transpose": _ext_transpose, "Arr.rechunk": _ext_arr_rechunk}
+
+        def requires(self):
+            return True
+
+        def ensures(result, self):
+            inner = result.fields["array"]
+            out = {"same-axes": tuple(S.val(a) if not isinstance(a, int) else a for a in _items(result.fields["axes"])) == tuple(axes),
+                   "rechunk-of-the-same-input": inner.fields.get("__rechunk_of__") is self.get("array").get("array")}
+            import z3
+            planner = inner.fields.get("__planner__", {})
+            for k in ("threshold", "block_size_limit", "method"):
+                a, b = planner.get(k), self.get(k)
+                ta = a if z3.is_expr(a) else getattr(a, "t", None)
+                tb = b if z3.is_expr(b) else getattr(b, "t", None)
+                out[f"planner-argument-{k}-travels"] = ta is not None and tb is not None and ta.eq(tb)
+            for i, ax in enumerate(axes):
+                out[f"output-axis-{i}-gets-its-requested-chunks"] = S.seq_equal(S.item(inner.fields["chunks"], ax), S.item(self.get("chunks"), i))
+            return out
+
+    pushdown_transpose.__name__ = "pushdown_transpose_" + "".join(map(str, axes))
+    return pushdown_transpose
+
+
+def _items(v):
+    return v.items if hasattr(v, "items") and not isinstance(v, dict) else list(v)
+
+
+PT10 = _pushdown_T((1, 0))
+PT201 = _pushdown_T((2, 0, 1))
+PT120 = _pushdown_T((1, 2, 0))
+PT021 = _pushdown_T((0, 2, 1))
